@@ -180,6 +180,9 @@ func Yield() { nativeYield() }
 // LiveThreads reports goroutines started by the code under test that have not finished (engine only; native: 0).
 func LiveThreads() int { return 0 }
 
+// Concretize asks the engine to case-split on every feasible value of x (natively: identity).
+func Concretize(x int) int { return x }
+
 // Symbolic reports whether the harness runs under the symbolic engine.
 func Symbolic() bool { return false }
 
